@@ -3,6 +3,7 @@ import AiutiVerif.Buffer.Quiet
 import AiutiVerif.Buffer.Once
 import AiutiVerif.Buffer.Props
 import AiutiVerif.Buffer.Waits
+import AiutiVerif.Buffer.Terminates
 /-!
 # Buffer property theorems at run level (C03 conservation, C07 barrier)
 
@@ -277,6 +278,73 @@ theorem C03_all_delivered_when_nothing_can_move (s0 : St) (hf : Fresh s0) (ins :
   obtain ⟨hpc, hq⟩ := rest_idle s hk hl hr
   exact C03_all_delivered_at_rest s0 hf ins hn hpc hq
 
+/-- **Left alone, the buffer always comes to rest** — having delivered everything and released every
+waiter.  For every fresh buffer (any timeout, any finite outcome script of the wrapped function:
+after the script its calls succeed), every program of timed inputs without a shutdown (finite
+producers of every kind) whose foreign clears are closed: after the program, finitely many moves of
+the machine (`tick`: a zero-time step of the background task, else the earliest timed event — what
+`runProgram`'s drain iterates, `advance_is_ticks`) lead to a state in which nothing can move, and in
+that state **every element the program submitted has been an argument of a successful call, every
+`wait()` the program issued has returned**, nobody is blocked and the background task sleeps on an
+empty queue.  This is the "eventually" of C03 and the "always returns once the wrapped function can
+succeed" of C07, under exactly the property's provisos (the function does not fail for ever, producers
+end).  Lexicographic termination measure: failures in store, producers queued or captured, position
+in the attempt (`Buffer/Terminates.lean`). -/
+theorem C07_C03_left_alone_everything_completes (s0 : St) (hf : Fresh s0) (ins : List In) (hn : noShutdown ins)
+    (hc : openClear ins = false) :
+    ∃ n, let s := tickN n (ins.foldl applyIn s0)
+      AtRest s ∧
+      s.submitted = (ins.foldl applyIn s0).submitted ∧
+      (∀ x ∈ s.submitted, x ∈ (deliveredOf s.outs).1) ∧
+      (∀ id ∈ waitsOf ins, id ∈ waitIds s.outs) ∧
+      s.joiners = [] ∧ s.flaggers = [] ∧ s.event = true ∧ s.pc = Pc.idle ∧ s.queue = [] := by
+  obtain ⟨hk0, hl0⟩ := KL_foldl ins false s0 (K_fresh s0 hf) (L_fresh s0 hf) hn
+  have hc' : ins.foldl stepFc false = false := hc
+  rw [hc'] at hl0
+  obtain ⟨n, hr, hk, hl⟩ := ticks_reach_rest (ins.foldl applyIn s0) hk0 hl0
+  refine ⟨n, ?_⟩
+  intro s
+  obtain ⟨hsub, hSub⟩ := tickN_frame n (ins.foldl applyIn s0)
+  obtain ⟨hpc, hq, _, hev, hj, hfl⟩ := rest_shape s hk hl hr
+  refine ⟨hr, hsub, ?_, ?_, hj, hfl, hev, hpc, hq⟩
+  · -- delivered: as in `C03_all_delivered_at_rest`
+    intro x hx
+    have hg : s.gens = [] := hk.gensIter (by rw [hpc]; simp)
+    have hp : s.pendingItems = [] := hk.pendPc (by rw [hpc]; rfl)
+    have hi : s.inputs = [] := hk.idleInputs (Or.inl hpc)
+    have hq' := hk.quietPc (by rw [hpc]; rfl)
+    have hcap : capItems s = [] := by
+      unfold capItems
+      unfold gstate at hq'
+      cases hgt : s.getting with
+      | none => rfl
+      | some g =>
+        rw [hgt] at hq'
+        simp only [Option.map_some, ne_eq, Option.some.injEq] at hq'
+        simp [hq'.1]
+    rcases hk.conserve x hx with h1 | h1 | h1 | h1 | h1 | h1
+    · rw [hq] at h1; cases h1
+    · rw [hg] at h1; cases h1
+    · rw [hcap] at h1; cases h1
+    · rw [hp] at h1; cases h1
+    · rw [hi] at h1; cases h1
+    · rw [hk.outsDeliv]; exact h1
+  · intro id hid
+    have := hSub id ((Sub_foldl ins s0 hn).2 id hid)
+    rw [mem_wids] at this
+    rcases this with ⟨w, hw, _⟩ | ⟨w, hw, _⟩ | ⟨r, hr', e⟩
+    · have hw' : w ∈ s.joiners := hw
+      rw [hj] at hw'; cases hw'
+    · have hw' : w ∈ s.flaggers := hw
+      rw [hfl] at hw'; cases hw'
+    · rw [hk.outsWaits]
+      exact List.mem_map.mpr ⟨r, hr', e⟩
+
+/-- the drain of `runProgram` is such a run of moves (it stops early only when its fuel or its horizon
+runs out, which the driver reports as `rest=0`) -/
+theorem C07_runProgram_is_ticks (s0 : St) (ins : List In) : ∃ k, runProgram s0 ins = tickN k (ins.foldl applyIn s0) :=
+  advance_is_ticks fuelDefault horizon false _
+
 /-- Why the hypothesis on foreign clears: a thread that has cleared the flag and not yet put its
 producer leaves a `wait()` blocked (until the put arrives) although the buffer is at rest. -/
 theorem C07_open_foreign_clear_blocks :
@@ -315,5 +383,12 @@ example : AtRest (runProgram demoSt demoIns) ∧ openClear demoIns = false ∧ w
    by decide +kernel, by decide +kernel⟩
 example : AtRest (runProgram { T := 1024, outcomes := [] } demoForeign) ∧ openClear demoForeign = false :=
   ⟨⟨Option.isNone_iff_eq_none.mp (by decide +kernel), Option.isNone_iff_eq_none.mp (by decide +kernel)⟩, by decide +kernel⟩
+
+/-- the demo program, left alone after its last input, is at rest after 9 moves and not before -/
+example : AtRest (tickN 9 (demoIns.foldl applyIn demoSt)) ∧ ¬ AtRest (tickN 8 (demoIns.foldl applyIn demoSt)) := by
+  refine ⟨(atRest_iff _).mp (by decide +kernel), fun h => ?_⟩
+  have := (atRest_iff _).mpr h
+  revert this
+  decide +kernel
 
 end AiutiVerif.Buffer
